@@ -1127,7 +1127,7 @@ class C14(Property):
                     for i, q in enumerate(v['vals'][0]):
                         x = unrat(q)
                         base = abs(x) if x != 0 else Fraction(1)
-                        vals0.append(rat(x + base * Fraction(int(sign) * (3 + (i + vi) % 4), 10 ** 7)))
+                        vals0.append(rat(x + base * Fraction(int(sign) * (3 + (i + vi) % 4), 10 ** 5)))
                     pert['ins'].append(dict(v, vals=[vals0, v['vals'][1]]))
                 _, jp, _ = exact_eval(pert, 0)
                 for on in sorted({b[1] for b in failure['bad']}):
@@ -1135,7 +1135,9 @@ class C14(Property):
                     j1 = np.hstack([data[1][2][(on, n)] * fac[n] for n in names])
                     jq = np.hstack([jp[(on, n)] * fac[n] for n in names])
                     new_nz = (np.abs(j0) <= 1e-7 * (1.0 + np.abs(j1))) & (np.abs(j1) > 0)
-                    if np.any(new_nz & (np.abs(j0) == 0) & (np.abs(jq) > 1e-16)):
+                    # rounding noise of a cancelling derivative (x/(2x)) is ~1e-16 x terms; an isolated zero of a
+                    # smooth partial is >= ~1e-9 after a 3e-5 relative move
+                    if np.any(new_nz & (np.abs(j0) == 0) & (np.abs(jq) > 1e-12 * (1.0 + np.abs(j1)))):
                         return True
         except Exception:
             return False
